@@ -1,4 +1,4 @@
-(** Properties_TierBridge.v — the Tier-A / Tier-B agreement (DESIGN 5.6) for the primitives.  Only statements
+(** Properties_C16_TierBridge.v (companion of Properties_C16.v; also serves C17, C18, C19) — the Tier-A / Tier-B agreement (DESIGN 5.6) for the primitives.  Only statements
     closed by [exact].
 
     Tier B = the value-level models of the JSON Patch / Merge Patch utilities (PatchDefs.v, MergeDefs.v:
